@@ -55,8 +55,8 @@ def run(ctx, invs=INVS, rel=P.rel_c07, witnesses=("W_Ann", "W_Pruned"), finish=T
     rnd = random.Random(ctx.seed + 7)
     scns = [P.chain_scenario([rnd.choice(P.FATES) for _ in range(9)], waits=(4, 8, 12),
                              with_votes=(rnd.randint(1, 9),)) for _ in range(6)]
-    num, depth = (80, 36) if ctx.tier == "quick" else (3000, 45)
-    P.run_sim(ctx, "chain_sim9", [2, 2, 1], 0, 13, scns, invs, rel, num, depth)
+    num, depth = (80, 36) if ctx.tier == "quick" else (1000, 45)
+    P.run_sim(ctx, "chain_sim9", [2, 2, 1], 0, 13, scns, invs, rel, num, depth, timeout=3000)
     if not finish:
         return 0
     # code -> spec on real executions: every pool call / Votor step of every correct node of simulated networks
